@@ -12,7 +12,7 @@ inline bytes token(int src, int ordinal) {
   t[0] = (char)(0xA0 + (src & 0x1f));
   t[1] = (char)((ordinal >> 8) & 0xff);
   t[2] = (char)(ordinal & 0xff);
-  t[3] = (char)0xEE;
+  t[3] = (char)(0xEE ^ (g_bstr_salt & 0x0f));  // differs in a shadow run (history mode 2)
   return t;
 }
 inline std::vector<bytes> tokens_of(const bytes &v) {
@@ -80,14 +80,17 @@ inline bytes msum_enc(unsigned n) {
   return b;
 }
 inline bytes msum_value(int src, int ordinal) {  // deterministic, length 0..40
-  uint64_t h = (uint64_t)(src + 1) * 0x9E3779B97F4A7C15ull + (uint64_t)(ordinal + 1) * 0xC2B2AE3D27D4EB4Full;
-  h ^= h >> 29;
-  h *= 0xBF58476D1CE4E5B9ull;
-  h ^= h >> 32;
+  auto mix = [](uint64_t h) {
+    h ^= h >> 29;
+    h *= 0xBF58476D1CE4E5B9ull;
+    h ^= h >> 32;
+    return h;
+  };
+  uint64_t base = (uint64_t)(src + 1) * 0x9E3779B97F4A7C15ull + (uint64_t)(ordinal + 1) * 0xC2B2AE3D27D4EB4Full;
   static const int lens[] = {0, 1, 2, 2, 3, 5, 9, 40};
-  int len = lens[h & 7];
+  int len = lens[mix(base) & 7];                                // the length is the same in a shadow run (history mode 2) ...
+  uint64_t x = mix(base + ((uint64_t)g_bstr_salt << 7)) >> 3;  // ... the content is not
   bytes b;
-  uint64_t x = h >> 3;
   for (int i = 0; i < len; i++) {
     b.push_back((char)(x & 0xff));
     x = x * 6364136223846793005ull + 1442695040888963407ull;
